@@ -2,20 +2,26 @@
 
 Correspondence (four case kinds, all evaluated by the Coq model theories/C20/Model.v via Corr.check_case):
   prog   : generated ADbasic sources (main file + include files in a scratch directory) through the real
-           parse_adbasic_program + analyze_parameter_info; compared: symbol list, then binding (both dicts,
-           insertion order) or (file, line) of the ParseException;
+           parse_adbasic_program + analyze_parameter_info; compared: the binding (both dicts, as maps) or
+           (ParseException, file, line); the symbol list modulo repeated inclusion of a file (first occurrences
+           kept on both sides; theorem C20_repeated_symbols_ignored); circular include graphs (run under a
+           watchdog): "does not terminate" or the result on the acyclic unfolding are both accepted;
   syms   : symbol lists handed to analyze_parameter_info directly (values with blanks, odd labels);
   ranges : AdwinProcess._find_sequential_ranges on integer lists (exhaustive small scope + random);
   dev    : the real AdwinProcess over a simulated ADwin (FakeAdwin: dictionaries + log of calls) driven
            with get_par/set_par/get_par_multiple/set_par_multiple; compared: every result / exception
-           class, the exact sequence of calls on the ADwin interface, final register contents.
+           class (batch reads as maps name -> value), per accessor call the SET of registers read and the SET
+           written on the ADwin interface, final register contents; the effects of a FAILING batch call are
+           not compared (not fixed by the property).
 Independent property oracles on the implementation's observations (no model involved):
-  oracle_binding, oracle_scanner, oracle_ranges, oracle_batch (batch vs one-by-one on two fresh fakes).
+  oracle_binding (against the #Define lines the generator wrote, not against the code's own scan),
+  oracle_ranges, oracle_batch (batch vs one-by-one on two fresh fakes).
 """
 import itertools
 import os
 import re
 import shutil
+import signal
 import struct
 
 from common import cN, cZ, clist, copt, cpair, ccodepoints
@@ -154,7 +160,11 @@ def run_op(proc, op):
 def impl_dev(case, upto=None):
     fake = FakeAdwin([(tuple(r), pyval(v)) for r, v in case["init"]], case["int_arrays"])
     proc = mk_proc(fake, [(n, tuple(d)) for n, d in case["binding"]])
-    outs = [run_op(proc, op) for op in (case["ops"] if upto is None else case["ops"][:upto])]
+    outs, marks = [], []
+    for op in (case["ops"] if upto is None else case["ops"][:upto]):
+        outs.append(run_op(proc, op))
+        marks.append(len(fake.log))
+    fake.marks = marks          # log length after each accessor call
     return fake, proc, outs
 
 
@@ -189,9 +199,18 @@ def impl_analyze(syms):
     return canon_result(go)
 
 
+class _NoTermination(BaseException):
+    pass
+
+
+def _alarm(signum, frame):
+    raise _NoTermination()
+
+
 def impl_prog(case, scratch, serial):
     from qmi.utils.adbasic_parser import parse_adbasic_program
     root = os.path.join(scratch, "p%d" % serial)
+    cyclic = bool(case.get("cyclic"))
     try:
         for rel, lines in case["files"].items():
             p = os.path.join(root, rel)
@@ -202,7 +221,19 @@ def impl_prog(case, scratch, serial):
         def go():
             ss = parse_adbasic_program(os.path.join(root, case["main"]), os.path.join(root, case["incdir"]))
             return [(os.path.relpath(os.path.normpath(s.filename), root), s.line_nr, s.label, s.value) for s in ss]
-        syms = canon_result(go, root)
+        if cyclic:
+            # circular includes: /repo's traversal never ends; give it a short budget (the files are tiny)
+            old = signal.signal(signal.SIGALRM, _alarm)
+            signal.setitimer(signal.ITIMER_REAL, case.get("budget_s", 0.25))
+            try:
+                syms = canon_result(go, root)
+            except _NoTermination:
+                return None, ("other", 98)
+            finally:
+                signal.setitimer(signal.ITIMER_REAL, 0)
+                signal.signal(signal.SIGALRM, old)
+        else:
+            syms = canon_result(go, root)
         if not isinstance(syms, list):
             return None, syms
         # analysis on the very objects' content (file names canonicalised the same way)
@@ -312,15 +343,6 @@ def oracle_binding(syms, res):
     return None
 
 
-def oracle_scanner(case, syms):
-    exp = case.get("expect_syms")
-    if exp is None or syms is None:
-        return None
-    if [tuple(e) for e in exp] != [tuple(s) for s in syms]:
-        return "symbols found by parse_adbasic_program differ from the #Define lines written"
-    return None
-
-
 def oracle_ranges(l, rs):
     flat = []
     for a, b in rs:
@@ -391,7 +413,7 @@ def oracle_batch(case, k):
             diff = sorted(r for r in set(fa.dump()) | set(fb.dump()) if fa.dump().get(r) != fb.dump().get(r))
             return "registers after set_par_multiple differ from one-by-one set_par at %r" % (diff[:3],)
         w = touched(fa.log[la:], ("set_par", "set_fpar", "set_data"))
-        if sorted(w) != bound:
+        if set(w) != set(bound):
             return "set_par_multiple wrote registers %r, bound ones are %r" % (sorted(w)[:6], bound[:6])
         if touched(fa.log[la:], ("get_par", "get_fpar", "get_data")):
             return "set_par_multiple read registers"
@@ -408,7 +430,7 @@ def oracle_batch(case, k):
         if dict(ra[1]) != dict(single):
             return "get_par_multiple result differs from one-by-one get_par"
         rd = touched(fa.log[la:], ("get_par", "get_fpar", "get_data"))
-        if sorted(rd) != bound:
+        if set(rd) != set(bound):
             return "get_par_multiple read registers %r, bound ones are %r" % (sorted(rd)[:6], bound[:6])
         if touched(fa.log[la:], ("set_par", "set_fpar", "set_data")) or fa.dump() != before:
             return "get_par_multiple changed registers"
@@ -517,12 +539,15 @@ def coq_case(case, obs):
     final = [(r, obs["final"].get(r, ("i", 0) if (r[0] == "P" or (r[0] == "D" and r[1] in case["int_arrays"])) else ("f", 0.0)))
              for r in regs]
     init = [(tuple(r), tuple(v)) for r, v in case["init"]]
-    return "(KDev %s %s %s %s %s %s)" % (
+    per_op, lo = [], 0
+    for x, hi in zip(obs["outs"], obs["marks"]):
+        per_op.append(cpair(cout(x), clist([ccall(c) for c in obs["log"][lo:hi]])))
+        lo = hi
+    return "(KDev %s %s %s %s %s)" % (
         clist([cpair(cstr(n), cdesc(d)) for n, d in case["binding"]]),
         clist([cpair(creg(r), cval(v)) for r, v in init]),
         clist([cop(o) for o in case["ops"]]),
-        clist([cout(x) for x in obs["outs"]]),
-        clist([ccall(c) for c in obs["log"]]),
+        clist(per_op),
         clist([cpair(creg(r), cval(v)) for r, v in final]))
 
 
@@ -901,11 +926,12 @@ def observe(case, scratch, serial=0):
         return {"result": res}, whys
     if k == "prog":
         syms, res = impl_prog(case, scratch, serial)
-        w = oracle_scanner(case, syms)
-        if w:
-            whys.append(("scanner:" + w[:60], w))
-        if syms is not None:
-            w = oracle_binding(syms, res)
+        truth = case.get("expect_syms")      # the #Define lines written, in traversal order (None: a file is missing)
+        if res == ("other", 98):
+            pass        # circular includes, no termination: left open by C20 (only generated for circular graphs)
+        elif syms is not None or res[0] in ("binding", "err"):
+            # judged against what the program contains, not against the code's own scan of it
+            w = oracle_binding(truth if truth is not None else syms, res)
             if w:
                 whys.append(("binding:" + w.split("(")[0].split(" at ")[0].strip()[:60], w))
         elif not case.get("missing"):
@@ -927,7 +953,7 @@ def observe(case, scratch, serial=0):
             w = oracle_batch(case, i)
             if w:
                 whys.append(("batch:%s:" % op[0] + re.sub(r"[\[\(].*", "", w).strip()[:60], w))
-    return {"outs": outs, "log": list(fake.log), "final": fake.dump()}, whys
+    return {"outs": outs, "log": list(fake.log), "marks": list(fake.marks), "final": fake.dump()}, whys
 
 
 def shrink(case, scratch, key):
